@@ -151,10 +151,23 @@ def run(ctx):
     bad = []
     hist, distinct = {}, set()
     ones = 0
+    overflow_scoped = 0
     for cid, sl, args in cases:
         kind, ty, bs, q, u, spec, st, v, _ = meta[cid]
         got = impl.get(cid)
         hist[f"{kind}/{ty}/{bs}"] = hist.get(f"{kind}/{ty}/{bs}", 0) + 1
+        if got == "PANIC" and STYPES[ty]["cls"] == "z" and kind == "unit":
+            # fixed-width storage: the conversion's exact intermediates do not fit (the property presupposes no overflow; debug build panics)
+            from fractions import Fraction
+            k_ = Fraction(int(u["coef_q"][0]), int(u["coef_q"][1]))
+            f_ = Fraction(1)
+            for b_, name_, e_ in zip(t.base, T.BASE_SETS[bs], q["dim"]):
+                f_ *= T.frac(t.unit(b_["name"], name_)["coef"]) ** e_
+            a_ = f_ / k_ if k_ else Fraction(0)
+            vi = abs(int(v)) if v not in ("one",) else 1
+            if max(vi * abs(a_.numerator), a_.denominator, abs(a_.numerator), f_.numerator, f_.denominator) >= 2 ** 62:
+                overflow_scoped += 1
+                continue
         if got is None or got in ("PANIC", "BADOP", "BADSPEC"):
             bad.append((cid, f"harness answered {got}", None))
             continue
@@ -182,6 +195,7 @@ def run(ctx):
     cov = ctx.coverage
     cov["evaluations"] = len(cases)
     cov["distinct_nontrivial"] = len(distinct)
+    cov["fixed_width_overflow_scoped"] = overflow_scoped
     cov["rule"] = ("format!(spec, q.into_format_args(unit, style)) and Arguments::with for f64/f32/i64/BigRational x {SI, km-g-h} bases x selected units "
                    "(all offset/extreme units + rotation) x spec catalogue (Display/Debug/exp/hex/octal/binary with width, fill, align, sign, #, 0, precision) x "
                    "both styles x values {1,-1,1+-ulp,0,-0,NaN,inf,random}; Debug of bare quantities for sampled quantities; the storage type's own formatting of "
